@@ -107,6 +107,9 @@ func main() {
 		}
 		for _, s := range scs {
 			c.AddEvals(1)
+			if s.Result != nil && (s.Result.Hung || s.Result.Leaked > 0) {
+				s = vlib.Confirm(bins[v.ID()], s, nil) // absence verdicts need a generous second look
+			}
 			feat := fmt.Sprintf("wl%d|defer=%v|mode=%s", v.WorkerLimit, strings.Contains(s.Query, "@defer"), s.Mode)
 			c.Class(fmt.Sprintf("%s|k=%d|%s", feat, s.Cancel, s.Sched))
 			switch {
